@@ -419,7 +419,7 @@ Proof.
     { unfold key_dispatch, QUOTATION_MARK, APOSTROPHE. pose proof (rest_adv w _ i H) as R.
       unfold fails. rewrite (bind_ok _ _ _ _ _ (peek_ok _ _ _ _ (any_ok _ b tl R))).
       apply byte_eqb_neq in Hq, Ha. rewrite Hq, Ha. apply unquoted_key_fails. rewrite R. exact Hu. }
-    destruct F as (e & j & F). unfold fails, with_span. rewrite F. eauto.
+    apply context_fails in F. destruct F as (e & j & F). unfold fails, with_span. rewrite F. eauto.
 Qed.
 
 (* first byte of a key *)
